@@ -946,6 +946,20 @@ func checksumPrograms() []*dsl.Program {
 	mk("shared-name-unregistered", dsl.Root("Msg", dsl.Ck("u32", "SumA", "NOSUCHX"), dsl.Sc("u8", "A"), dsl.Ck("u8", "SumB", "NOSUCHX"), dsl.Ck("u16", "SumC", "NOSUCHX"), dsl.Sc("u8", "B"), dsl.Ob("Other", "")),
 		dsl.Pk("Other", dsl.Ck("u64", "SumD", "NOSUCHX")))
 	mk("shared-name-two-packets", dsl.Root("Msg", dsl.Sc("u8", "A"), dsl.Ck("u32", "Sum", "CRC32"), dsl.Ob("Other", "")), dsl.Pk("Other", dsl.Sc("u16", "B"), dsl.Ck("u32", "Sum", "CRC32")))
+	// algorithm names are data, matched as written: registered names in mixed and lower case, and names that
+	// only become a registered name when their case is changed - in both attribute placements
+	for _, c := range []struct{ n, t, alg string }{{"mixed-case-registered", "u32", "SumU32Mx"}, {"lower-case-registered", "u16", "sumu16lc"},
+		{"lower-case-of-a-registered-name", "u32", "sumu32"}, {"mixed-case-of-a-registered-name", "u32", "Crc32"}, {"upper-case-of-a-registered-name", "u32", "SUMU32MX"}} {
+		for _, pre := range []bool{false, true} {
+			ck := dsl.Ck(c.t, "Sum", c.alg)
+			ck.Prefixed = pre
+			sp := "inline"
+			if pre {
+				sp = "prefixed"
+			}
+			mk(c.n+"-"+sp, dsl.Root("Msg", dsl.Sc("u32", "Seq"), dsl.Ds("Text"), ck, dsl.Sc("u8", "After"), dsl.In("Inner", dsl.Sc("u8", "X"), dsl.Ck(c.t, "Sum2", c.alg))))
+		}
+	}
 	mk("inline-only-unregistered", dsl.Root("Msg", dsl.Sc("u32", "Seq"), dsl.In("Inner", dsl.Sc("u8", "X"), dsl.Ck("u16", "Sum", "NOSUCHU16"))))
 	return out
 }
